@@ -146,6 +146,14 @@ def apply_op(op: tuple, model: RefStorage, storage: Any, b: Binding) -> tuple[tu
             tmpl = template(kind, n_obj)
         mo = _outcome(model.create_new_trial, sid, tmpl)
         io = _outcome(storage.create_new_trial, b.si(sid), tmpl)
+        if tmpl is not None:
+            # the caller keeps using its template object: the stored trial must not alias any part of it
+            for d in (tmpl.params, tmpl.distributions, tmpl.user_attrs, tmpl.system_attrs, tmpl.intermediate_values):
+                for k in list(d):
+                    if isinstance(d[k], (dict, list)):
+                        d[k].clear()
+                    d[k] = "scribbled"
+                d["scribbled"] = 1
         if mo[0] == "ok" and io[0] == "ok":
             if io[1] in b.t_i2m and b.t_i2m[io[1]] in model.trials and b.t_i2m[io[1]] != mo[1]:
                 return mo, ("ok", "id-of-live-trial")
